@@ -270,6 +270,38 @@ pub fn win_complete_prefix(b: &[u8]) -> bool {
     }
 }
 
+/// A prefix that is incomplete by the reading above can still be *stable*: by the grammar alone, appending a
+/// separator and a name (or just a name when the text already ends in a separator) leaves kind, payloads and
+/// raw length of the prefix as they are (`\\?\UNC\server\` keeps its empty share: the separator after the
+/// server is inside the prefix, the next one starts the body).  `\\server`, `\\server\`, `\\?\UNC\server`,
+/// `\\?\UNC`, `\\?\` are not.  Decided on the specification only, never on the implementation.
+pub fn win_stable_prefix(b: &[u8]) -> bool {
+    let d = win_decomp(b);
+    let Some((k, n)) = &d.prefix else { return true };
+    // only the empty-share shapes are let in this way: a verbatim-disk prefix directly followed by a name or a dot
+    // (`\\?\C:x`, `//?/C:.`) is stable too, but what follows it is re-read once the implicit root is written
+    if !matches!(k, Kind::UNC(_, sh) | Kind::VerbatimUNC(_, sh) if sh.is_empty()) {
+        return false;
+    }
+    let same = |probe: &[u8]| match &win_decomp(probe).prefix {
+        Some((k2, n2)) => k2 == k && n2 == n,
+        None => false,
+    };
+    let mut p1 = b.to_vec();
+    p1.extend_from_slice(b"\\x");
+    let mut ok = same(&p1);
+    // (joining onto a verbatim-prefixed base writes the separator after the prefix text in every case; onto any
+    // other base none is written when the text already ends in one)
+    if let (Some(l), false) = (b.last(), k.is_verbatim()) {
+        if any_sep(*l) {
+            let mut p2 = b.to_vec();
+            p2.push(b'x');
+            ok = ok && same(&p2);
+        }
+    }
+    ok
+}
+
 pub fn names_valid(comps: &[SComp], win: bool) -> bool {
     let f = forbidden(win);
     comps.iter().all(|c| match c {
